@@ -37,6 +37,41 @@ int main() {
     }
     if (started.load()) { std::printf("variant %d: %d task bodies started after cancel() had returned\n", variant, started.load()); bad++; }
   }
+  // cancellation from inside a body while the caller is running bulk items inline (set over its load factor, pool thread parked):
+  // every later item of the same scheduleBulk call must be skipped, so no body may start with the set already cancelled
+  for (int variant = 0; variant < 4; ++variant) {
+    dispenso::ThreadPool pool(1);
+    std::atomic<bool> release{false};
+    std::atomic<int> startedCancelled{0}, ran{0};
+    {
+      dispenso::TaskSet ts(pool, 1);
+      dispenso::ConcurrentTaskSet ctsH(pool, dispenso::ParentCascadeCancel::kOff, 1), ctsL(pool, dispenso::ParentCascadeCancel::kOff, 1, dispenso::TaskCost::kLightweight);
+      auto blocker = [&]() { while (!release.load()) std::this_thread::sleep_for(std::chrono::milliseconds(1)); };
+      ts.schedule(blocker, dispenso::ForceQueuingTag()); ts.schedule(blocker, dispenso::ForceQueuingTag());
+      ctsH.schedule(blocker, dispenso::ForceQueuingTag()); ctsH.schedule(blocker, dispenso::ForceQueuingTag());
+      ctsL.schedule(blocker, dispenso::ForceQueuingTag()); ctsL.schedule(blocker, dispenso::ForceQueuingTag());
+      std::this_thread::sleep_for(std::chrono::milliseconds(20));
+      auto gen = [&](dispenso::TaskSetBase* set, bool thrower) {
+        return [&, set, thrower](size_t i) { return [&, set, thrower, i]() {
+          if (set->canceled()) startedCancelled++;
+          ran++;
+          if (i == 1) { if (thrower) throw 1; set->cancel(); } }; };
+      };
+      try {
+        switch (variant) {
+          case 0: ts.scheduleBulk(40, gen(&ts, false)); break;
+          case 1: ctsH.scheduleBulk(40, gen(&ctsH, false)); break;
+          case 2: ctsL.scheduleBulk(40, gen(&ctsL, false)); break;
+          case 3: ts.scheduleBulk(40, gen(&ts, true)); break;
+        }
+      } catch (...) {}
+      release = true;
+      try { ts.wait(); } catch (...) {}
+      try { ctsH.wait(); } catch (...) {}
+      try { ctsL.wait(); } catch (...) {}
+    }
+    if (startedCancelled.load()) { std::printf("bulk variant %d: %d of %d bodies started with the set already cancelled\n", variant, startedCancelled.load(), ran.load()); bad++; }
+  }
   if (bad) return 1;
   std::printf("no body started after cancel()\n");
   return 0;
